@@ -513,14 +513,18 @@ def runBlocking (line : String) : String :=
     -- wakeup that leaves the flag unset is a step of `waitTimeout` that changes nothing but the remaining time
     -- (C08.wait_timeout_within_budget): same result as `stalled`, returned within the budget (oracle on the real call)
     let spurious := rx0 == .atom "spurious"
-    let rx := if spurious then .atom "stalled" else rx0
+    -- RX = livein: a live receiver spawned from inside the calling runtime — where a receiver is spawned from is no
+    -- input of the model (it runs on its own thread): same verdict as `live`
+    let livein := rx0 == .atom "livein"
+    let rx := if spurious then .atom "stalled" else if livein then .atom "live" else rx0
     match api? api, ctx? ctx, rxKind? rx, cap.nat?.filter (· ≥ 1), prefill.nat?, timeout? timeout with
     | some api, some ctx, some rx, some cap, some prefill, some timeout =>
       let cfg := Cfg.real cap
       let path := blockingPath api ctx
-      let rxn := if spurious then "spurious" else match rx with | .live => "live" | .stalled => "stalled" | .gone => "gone" | .late => "late" | .refill => "refill" | .hangup => "hangup"
+      let rxn := if spurious then "spurious" else if livein then "livein" else match rx with | .live => "live" | .stalled => "stalled" | .gone => "gone" | .late => "late" | .refill => "refill" | .hangup => "hangup"
       let sig := s!"{pathName path},{op},rx={rxn}"
       if spurious ∧ (timeout < 300 ∨ timeout > 5000 ∨ api = .async) then "bad-op" else
+      if livein ∧ (api = .async ∨ (ctx ≠ .tokioCurrentThread ∧ ctx ≠ .tokioMultiThread)) then "bad-op" else
       -- the counters after a send: truncations come from the prefill alone, blocked = the first attempt failed
       -- (against a live / late receiver thread with a full queue that depends on thread scheduling: `b=?`)
       let (mt, mb) := blockingSendCounters cfg rx prefill 999
